@@ -76,6 +76,20 @@ Verdicts(start) ==
             [] t.ph = "REJ" -> {[v |-> "err"]}
             [] OTHER -> IF x # <<>> /\ Last(x) = NL THEN {[v |-> "inc"]} ELSE {[v |-> "inc"], [v |-> "err"]}
 
+\* the same verdicts with nodes given as spelled paths (for the implementation-shaped parser)
+VerdictsP(start) ==
+  LET t == ScanUnit(x)
+      walkDone == HeaderWalkOk(Cfg, start, t)
+      full == FullPath(start, t)
+  IN IF t.quirk THEN {}
+     ELSE IF ~walkDone THEN {[v |-> "err"]}
+     ELSE CASE t.ph = "ACC" ->
+                 {[v |-> "acc", n |-> t.n, q |-> t.q, term |-> t.term, args |-> t.args, com |-> t.com,
+                   node |-> full, hdr |-> IF t.com THEN <<>> ELSE Front(full)]}
+            [] t.ph = "EMPTY" -> {[v |-> "empty", n |-> t.n]}
+            [] t.ph = "REJ" -> {[v |-> "err"]}
+            [] OTHER -> IF x # <<>> /\ Last(x) = NL THEN {[v |-> "inc"]} ELSE {[v |-> "inc"], [v |-> "err"]}
+
 Emit == EmitReplay =>
   PrintT(<<"REPLAY", ToJson([x |-> x, exp |-> [i \in 1..Len(Starts) |-> Verdicts(Starts[i])]])>>)
 =============================================================================
